@@ -114,7 +114,15 @@ class DefGen:
             f["type"] = "[]" + r.choice(["int8", "int32", "int64", "string", "uuid"])
             if r.random() < 0.12:
                 f["nullableVersions"] = self.vrange(a, top)[0]          # (ignored by the generator: finding H)
+        pre_tag = None
         if kind in ("struct", "structArr"):
+            # whether the structure field is tagged is decided *before* its members are drawn: a tagged
+            # field lives in `ta+`, and the members' version ranges must be drawn inside that range
+            pre_tag = flex_lo is not None and top >= flex_lo and r.random() < 0.22
+            if pre_tag:
+                a, b, top = max(a, flex_lo), None, hi
+                vs = f"{a}+"
+                f["versions"] = vs
             f["name"] = self.field_name(used)
             self.struct_n += 1
             sname = f"S{self.serial}x{self.struct_n}" + r.choice(["Info", "Data", "Entry", "State"])
@@ -126,14 +134,14 @@ class DefGen:
             # of encoded size 0 cannot be delimited): an anchor field covering the whole range
             anchor = {"versions": vs, "name": self.field_name(sub_used), "type": r.choice(["int8", "int32", "string", "bool"])}
             f["fields"].insert(r.randrange(len(f["fields"]) + 1), anchor)
-            if r.random() < 0.3:
+            if r.random() < 0.3 and not (pre_tag and kind == "struct"):
                 nvs, (na, nb) = self.vrange(a, top)
                 f["nullableVersions"] = nvs
                 if kind == "struct" and na <= a and (nb is None or nb >= top) and r.random() < 0.5:
                     f["default"] = "null"
         # tagging: only inside the flexible versions, only for fields that exist there
-        if flex_lo is not None and top >= flex_lo and r.random() < 0.22 and f.get("type") != "records" \
-                and not (kind == "struct" and "nullableVersions" in f):
+        if flex_lo is not None and top >= flex_lo and (pre_tag if pre_tag is not None else r.random() < 0.22) \
+                and f.get("type") != "records" and not (kind == "struct" and "nullableVersions" in f):
             ta = max(a, flex_lo)
             f["taggedVersions"] = f"{ta}+"
             tag = next(t for t in range(50) if t not in tags)
